@@ -1,7 +1,6 @@
-(* Lemmas_Tables.v — kernel-evaluated facts about the tables measured on the compiled library
-   (Gen.v, regenerated on every run): they equal the committed reference tables, and have the
-   shapes the properties demand.  Every domain here is finite and complete (all 256 argument
-   values of each lookup, all 16 x 256 ECC cells, all 256 bytes). *)
+(* Lemmas_TabLookup.v — kernel-evaluated facts about the PTY and country lookup graphs measured on
+   the compiled library (Gen.v, regenerated on every run) against the committed reference tables.
+   Complete finite domains: all 256 argument values of each of the 8 lookups.  Used by C18 only. *)
 Require Import Observers Inst Ref_Tables Lemmas_Base.
 Require Gen.
 From Coq Require Import String.
@@ -93,81 +92,3 @@ Proof. vm_compute. reflexivity. Qed.
 Lemma iso_unique : iso_unique_ok = true.
 Proof. vm_compute. reflexivity. Qed.
 
-(* ---------- charset ---------- *)
-Definition conv_unicode_ok : bool :=
-  Nat.eqb (List.length Gen.conv_unicode) 256
-  && list_eqb Z.eqb (skipn 32 Gen.conv_unicode) ref_g0
-  (* control codes are not stored, except 0x0D which is the end-of-text marker *)
-  && all_from 32 0 (fun b => nth (Z.to_nat b) Gen.conv_unicode 99 =? (if b =? 13 then 0 else -1)).
-Definition conv_narrow_ok : bool :=
-  Nat.eqb (List.length Gen.conv_narrow) 256
-  && all_from 256 0 (fun b => nth (Z.to_nat b) Gen.conv_narrow 99 =?
-                                (if b =? 13 then 0 else if b <? 32 then -1 else if b <? 127 then b else 32)).
-(* every stored character is printable: >= 0x20, not a C1 control, not NUL *)
-Definition conv_printable_ok (conv : Z -> Z) : bool :=
-  all_from 224 32 (fun b => printable (conv b)) && (conv 32 =? 32).
-(* two bytes with the same unicode image have the same narrow image *)
-Definition narrow_well_defined_ok : bool :=
-  all_from 224 32 (fun i => all_from 224 32 (fun j =>
-    negb (conv_u i =? conv_u j) || (conv_n i =? conv_n j))).
-
-Lemma conv_unicode_is_G0 : conv_unicode_ok = true.
-Proof. vm_compute. reflexivity. Qed.
-Lemma conv_unicode_printable : conv_printable_ok conv_u = true.
-Proof. vm_compute. reflexivity. Qed.
-Lemma conv_printable_spec conv : conv_printable_ok conv = true ->
-  (forall b, 32 <= b < 256 -> printable (conv b) = true) /\ conv 32 = 32.
-Proof.
-  unfold conv_printable_ok. intros H. apply andb_true_iff in H. destruct H as [H1 H2]. split.
-  - intros b Hb. apply (all_from_spec _ _ _ H1). simpl. lia.
-  - apply Z.eqb_eq. exact H2.
-Qed.
-
-(* ---------- ECC ---------- *)
-Fixpoint enum_value (e : string) (l : list (string * Z)) : Z :=
-  match l with
-  | [] => -1
-  | (e', v) :: r => if String.eqb e e' then v else enum_value e r
-  end.
-Fixpoint ref_ecc_cell (nib ecc : Z) (l : list (Z * Z * string)) : Z :=
-  match l with
-  | [] => 0
-  | (n, e, c) :: r => if (n =? nib) && (e =? ecc) then enum_value c Gen.country_enum else ref_ecc_cell nib ecc r
-  end.
-Definition in_ecc_ranges (ecc : Z) : bool :=
-  ((160 <=? ecc) && (ecc <=? 166)) || ((208 <=? ecc) && (ecc <=? 212))
-  || ((224 <=? ecc) && (ecc <=? 229)) || ((240 <=? ecc) && (ecc <=? 244)).
-Definition ecc_ok : bool :=
-  Nat.eqb (List.length Gen.ecc_lut) 16
-  && forallb (fun r => Nat.eqb (List.length r) 256) Gen.ecc_lut
-  && (Gen.ecc_graph_bad_pi =? -2)
-  && all_from 16 0 (fun nib => all_from 256 0 (fun ecc =>
-       let v := lut_g nib ecc in
-       (v =? ref_ecc_cell nib ecc ref_ecc) && (0 <=? v) && (v <? 221)
-       && (if (nib =? 0) || negb (in_ecc_ranges ecc) then v =? 0 else true))).
-Lemma ecc_table_is_reference : ecc_ok = true.
-Proof. vm_compute. reflexivity. Qed.
-
-(* every value the lookup can return is a valid country enumerator, for ANY arguments *)
-Lemma lut_g_range : forall n e, 0 <= lut_g n e < 221.
-Proof.
-  intros n e. pose proof ecc_table_is_reference as H. unfold ecc_ok in H.
-  apply andb_true_iff in H. destruct H as [H Hsw].
-  apply andb_true_iff in H. destruct H as [H _].
-  apply andb_true_iff in H. destruct H as [Hlen Hrows].
-  apply Nat.eqb_eq in Hlen.
-  unfold lut_g.
-  destruct (Nat.lt_ge_cases (Z.to_nat n) 16) as [Hn|Hn].
-  2:{ rewrite (nth_overflow Gen.ecc_lut []) by lia. destruct (Z.to_nat e); simpl; lia. }
-  assert (Hr : List.length (nth (Z.to_nat n) Gen.ecc_lut []) = 256%nat).
-  { rewrite forallb_forall in Hrows. apply Nat.eqb_eq. apply Hrows. apply nth_In. lia. }
-  destruct (Nat.lt_ge_cases (Z.to_nat e) 256) as [He|He].
-  2:{ rewrite nth_overflow by lia. lia. }
-  pose proof (all_from_spec _ _ _ Hsw (Z.of_nat (Z.to_nat n)) ltac:(simpl; lia)) as H1. cbv beta in H1.
-  pose proof (all_from_spec _ _ _ H1 (Z.of_nat (Z.to_nat e)) ltac:(simpl; lia)) as H2. cbv beta zeta in H2.
-  unfold lut_g in H2. rewrite !Nat2Z.id in H2.
-  apply andb_true_iff in H2. destruct H2 as [H2 _].
-  apply andb_true_iff in H2. destruct H2 as [H2 H3].
-  apply andb_true_iff in H2. destruct H2 as [_ H2].
-  apply Z.leb_le in H2. apply Z.ltb_lt in H3. lia.
-Qed.
